@@ -3,6 +3,7 @@ package disc
 import (
 	"encoding/json"
 	"fmt"
+	config_util "github.com/prometheus/common/config"
 	"io/ioutil"
 	"net/http"
 	"net/http/httptest"
@@ -35,6 +36,31 @@ type c02Case struct {
 	// ViaCoord: the discovered targets reach the shard through a real coordinator cycle and the sidecar's HTTP API
 	// (Shard.UpdateTarget -> Service -> TargetsManager -> Injector) instead of being handed to the injector
 	ViaCoord bool `json:"viaCoord,omitempty"`
+	// Redirect: every target answers its scrape URL with a redirect to /moved<path>?from=redirect, which answers
+	// 200.  What a single Prometheus then requests depends on the job's follow_redirects; the proxy, whose HTTP
+	// client for the job is the one kvass builds (only its transport is replaced), must request the same URLs.
+	Redirect bool `json:"redirect,omitempty"`
+}
+
+// redirecting answers like the targets of a case: a redirect for every path outside /moved when the case says so.
+func redirecting(c *c02Case, seen *[]string) rt {
+	return func(rq *http.Request) (*http.Response, error) {
+		*seen = append(*seen, rq.URL.String())
+		if c.Redirect && !strings.HasPrefix(rq.URL.Path, "/moved") {
+			loc := "/moved" + rq.URL.Path + "?from=redirect"
+			return &http.Response{StatusCode: 302, Status: "302 Found", Body: ioutil.NopCloser(strings.NewReader("")),
+				Header: http.Header{"Location": []string{loc}}, Request: rq}, nil
+		}
+		return &http.Response{StatusCode: 200, Status: "200 OK", Body: ioutil.NopCloser(strings.NewReader("")), Header: http.Header{}, Request: rq}, nil
+	}
+}
+
+// followed renders the URLs requested after the first one (redirect hops).
+func followed(seen []string) string {
+	if len(seen) <= 1 {
+		return ""
+	}
+	return " then " + strings.Join(seen[1:], " then ")
 }
 
 type seen struct {
@@ -129,8 +155,26 @@ func runC02(rec *vkit.Recorder, c *c02Case) []vkit.Violation {
 	// ---- reference
 	ref, refFail := expand(groups, job)
 	var want []string
+	var refCli *http.Client
+	var refSeen []string
+	if c.Redirect {
+		if cli, err := config_util.NewClientFromConfig(job.HTTPClientConfig, job.JobName, config_util.WithHTTP2Disabled()); err == nil {
+			cli.Transport = redirecting(c, &refSeen)
+			refCli = cli
+		}
+	}
 	for _, t := range ref {
-		want = append(want, describe(publicLabels(t), t.URL()))
+		d := describe(publicLabels(t), t.URL())
+		if refCli != nil {
+			refSeen = nil
+			if rq, err := http.NewRequest("GET", t.URL().String(), nil); err == nil {
+				if resp, err := refCli.Do(rq); err == nil {
+					_ = resp.Body.Close()
+				}
+			}
+			d += followed(refSeen)
+		}
+		want = append(want, d)
 	}
 	sort.Strings(want)
 	for _, t := range ref {
@@ -226,19 +270,26 @@ func runC02(rec *vkit.Recorder, c *c02Case) []vkit.Violation {
 	}
 	shardTargets, genFail := expand(genGroups, genJob)
 	if genFail > 0 {
-		add("C02/generated-target-rejected", "prometheus rejects %d target(s) of the generated file", genFail)
+		// the shard's Prometheus refuses a target of the generated file - as a single Prometheus refuses the
+		// discovered one (e.g. a relabeled __scrape_timeout__ above the interval); the comparison below decides
+		rec.Class("shard-prometheus-refuses-a-shipped-target")
 	}
 	sm := kscrape.New(false, quiet)
 	_ = sm.ApplyConfig(info)
 	var lastURL *url.URL
+	var proxySeen []string
 	getJob := func(name string) *kscrape.JobInfo {
 		ji := sm.GetJob(name)
-		if ji != nil {
-			ji.Cli = &http.Client{Transport: rt(func(rq *http.Request) (*http.Response, error) {
-				u := *rq.URL
-				lastURL = &u
-				return &http.Response{StatusCode: 200, Status: "200 OK", Body: ioutil.NopCloser(strings.NewReader("")), Header: http.Header{}, Request: rq}, nil
-			})}
+		if ji != nil && ji.Cli != nil {
+			// the client kvass built for the job stays (redirect policy, timeouts); only the wire is replaced
+			inner := redirecting(c, &proxySeen)
+			ji.Cli.Transport = rt(func(rq *http.Request) (*http.Response, error) {
+				if lastURL == nil {
+					u := *rq.URL
+					lastURL = &u
+				}
+				return inner(rq)
+			})
 		}
 		return ji
 	}
@@ -246,13 +297,18 @@ func runC02(rec *vkit.Recorder, c *c02Case) []vkit.Violation {
 	var got []string
 	for _, t := range shardTargets {
 		lastURL = nil
+		proxySeen = nil
 		w := httptest.NewRecorder()
 		proxy.ServeHTTP(w, &http.Request{Method: "GET", URL: t.URL(), Header: http.Header{}, Host: t.URL().Host, Proto: "HTTP/1.1", ProtoMajor: 1, ProtoMinor: 1})
 		if lastURL == nil {
 			add("C02/proxy-made-no-request", "proxy answered %d without requesting %s", w.Code, t.URL())
 			continue
 		}
-		got = append(got, describe(publicLabels(t), lastURL))
+		d := describe(publicLabels(t), lastURL)
+		if c.Redirect {
+			d += followed(proxySeen)
+		}
+		got = append(got, d)
 	}
 	sort.Strings(got)
 	// a relabel program that removes a reserved label (empty job / metrics path / scheme)
@@ -431,7 +487,8 @@ func genJob(t *rapid.T, name string) jobSpec {
 		j.Params[k] = vs
 	}
 	srcPool := append([]string{"__address__", "__scheme__", "__metrics_path__", "__param_module", "job", "instance"}, discLabelPool...)
-	tgtPool := []string{"__address__", "__metrics_path__", "__scheme__", "__param_module", "__param_target", "__param_extra", "instance", "job", "custom", "dc", "zone", "__tmp_x"}
+	tgtPool := []string{"__address__", "__metrics_path__", "__scheme__", "__param_module", "__param_target", "__param_extra", "instance", "job", "custom", "dc", "zone", "__tmp_x",
+		"__scrape_timeout__", "__scrape_interval__"}
 	// a configured multi-valued param overwritten by relabeling with one of its own configured values
 	if len(j.Params) > 0 && rapid.IntRange(0, 3).Draw(t, "paramToConfigured") == 0 {
 		for k, vs := range j.Params {
@@ -461,6 +518,10 @@ func genJob(t *rapid.T, name string) jobSpec {
 				r.Replacement = strp(rapid.SampledFrom([]string{"https", "http", "$1"}).Draw(t, l+"-rep"))
 			case "__metrics_path__":
 				r.Replacement = strp(rapid.SampledFrom([]string{"/alt", "/p/$1", "/$1", ""}).Draw(t, l+"-rep"))
+			case "__scrape_timeout__", "__scrape_interval__":
+				// the per-target interval / timeout of the pod-annotation pattern: Prometheus reads them back after
+				// relabeling and refuses a target whose timeout exceeds its interval, is 0s or is no duration
+				r.Replacement = strp(rapid.SampledFrom([]string{"5s", "30s", "2m", "0s", "soon", "10s"}).Draw(t, l+"-rep"))
 			default:
 				if rapid.Bool().Draw(t, l+"-hasRep") {
 					r.Replacement = strp(rapid.SampledFrom([]string{"$1", "fixed", "${1}-x", "", "a b", "$2"}).Draw(t, l+"-rep"))
@@ -506,6 +567,8 @@ func TestC02(t *testing.T) {
 		c := &c02Case{Job: genJob(t, rapid.SampledFrom([]string{"node", "job with space", "k8s/pods"}).Draw(t, "jobName"))}
 		c.Groups = genGroups(t, "grp", 3, 4, true)
 		c.ViaCoord = rapid.Bool().Draw(t, "viaCoord")
+		c.Redirect = rapid.IntRange(0, 3).Draw(t, "redirect") == 0
+		c.Job.NoFollow = rapid.IntRange(0, 2).Draw(t, "noFollow") == 0
 		// digit-leading final label names: a labelmap over pod labels plus a pod label that starts with a digit
 		if rapid.IntRange(0, 3).Draw(t, "digitLabel") == 0 {
 			c.Job.Rules = append(c.Job.Rules, relRule{Action: "labelmap", Regex: "__meta_kubernetes_pod_label_(.+)"})
